@@ -10,6 +10,11 @@ DIGITS = r"[0-9]+"
 # default value of an `id` symbol: any token text the lexer can type ID / DQ_STRING - never a bare dot or parenthesis
 NAME_DEFAULT = r"[!-'*-\-/-<>-~][!-~]*"
 
+# Which token a word becomes, and which lines reach the statement parser, decides every property that speaks about what is
+# parsed from a script (all but the run / object / file / cache properties C14, C15, C19, C20): the contracts on the lexer's
+# token typing and context flags, on the line machine and on the comment scanner take part in each of them.
+PARSE_PROPS = ["C01", "C02", "C03", "C04", "C05", "C06", "C07", "C08", "C09", "C10", "C11", "C12", "C13", "C16", "C17", "C18"]
+
 TERMINALS = {"LP": "(", "RP": ")", "COMMA": ",", "DOT": ".", "EQ": "=", "COMMAT": ","}
 
 
